@@ -5,7 +5,7 @@ use std::path::{Path, PathBuf};
 use std::rc::Rc;
 use std::sync::Arc;
 
-use anyhow::{anyhow, bail, Result};
+use anyhow::{anyhow, bail, Context, Result};
 use pest_consume::Parser as ParserDerive;
 
 use crate::ast::{
@@ -513,7 +513,69 @@ pub(crate) mod util {
     }
 }
 
+/// The generated parser descends recursively, several native frames per nesting level, so
+/// absurdly nested brackets are refused with a diagnostic instead of overflowing the stack.
+const MAX_BRACKET_NESTING: usize = 128;
+
+/// Byte offset of the first `(` / `[` that is nested deeper than [`MAX_BRACKET_NESTING`],
+/// ignoring string literals and comments.
+fn first_bracket_nested_too_deep(input_str: &str) -> Option<usize> {
+    let bytes = input_str.as_bytes();
+    let mut depth: usize = 0;
+    let mut i = 0;
+
+    while i < bytes.len() {
+        match bytes[i] {
+            b'"' => {
+                i += 1;
+                while i < bytes.len() && bytes[i] != b'"' {
+                    if bytes[i] == b'\\' && bytes.get(i + 1) == Some(&b'"') {
+                        i += 1;
+                    }
+                    i += 1;
+                }
+            }
+            b'#' if bytes[i..].starts_with(b"###") => {
+                i += 3;
+                while i < bytes.len() && !bytes[i..].starts_with(b"###") {
+                    i += 1;
+                }
+                i += 2;
+            }
+            b'#' => {
+                while i < bytes.len() && bytes[i] != b'\n' {
+                    i += 1;
+                }
+            }
+            b'(' | b'[' => {
+                depth += 1;
+                if depth > MAX_BRACKET_NESTING {
+                    return Some(i);
+                }
+            }
+            b')' | b']' => depth = depth.saturating_sub(1),
+            _ => (),
+        }
+        i += 1;
+    }
+
+    None
+}
+
 pub(crate) fn root_node_from_str(input_str: &str, user_data: Rc<AssocFileData>) -> Result<Node> {
+    if let Some(offset) = first_bracket_nested_too_deep(input_str) {
+        let message = format!("brackets are nested deeper than {MAX_BRACKET_NESTING} levels");
+        let position = pest::Position::new(input_str, offset).context("invalid source offset")?;
+
+        let error = pest::error::Error::<Rule>::new_from_pos(
+            pest::error::ErrorVariant::CustomError { message },
+            position,
+        )
+        .with_path(&user_data.get_source_file_name());
+
+        bail!(error)
+    }
+
     let x = util::parse_with_userdata_features(Rule::file, input_str, user_data);
 
     x.and_then(|x| x.single().map_err(Box::new))
